@@ -7,6 +7,7 @@ mod c04;
 mod c09;
 mod c10;
 mod c11;
+mod c12;
 mod ctx;
 mod docs;
 mod obs;
@@ -33,6 +34,7 @@ fn registry(id: &str) -> Option<Box<dyn Check>> {
         "C09" => Some(Box::new(c09::C09::new())),
         "C10" => Some(Box::new(c10::C10)),
         "C11" => Some(Box::new(c11::C11)),
+        "C12" => Some(Box::new(c12::C12)),
         _ => None,
     }
 }
